@@ -35,9 +35,12 @@ Emit == Len(done) < Cardinality(elems) \/
                           budget |-> [k \in 1..Len(done) |-> IF IsFiber(done[k]) THEN [c \in 1..N |-> Budget(done[k], c)] ELSE <<>>],
                           total |-> [c \in 1..N |-> acc.loss[c]]]))
 \* the configuration of the fibres, emitted once (the harness builds the real Fiber elements from it)
+\* LowPower (Raman on, -60 dBm per channel, loss = budget) is explored over the grid (fibre length) x (solver spatial resolution,
+\* m): fine, the 10 km default, one that divides no length, and one longer than the shortest fibre (lengths 25 / 50 / 80 / 100 km)
+LowPowerSteps == <<500, 7000, 10000, 30000>>
 FirstAssembly == CHOOSE a \in Assemblies : TRUE
 EmitConfig == done # <<>> \/ elems # FirstAssembly \/
-   PrintT("@@" \o ToJson([chanF |-> ChanF, span |-> [e \in Fib |-> Span[e]]]))
+   PrintT("@@" \o ToJson([chanF |-> ChanF, span |-> [e \in Fib |-> Span[e]], lowPowerSteps |-> LowPowerSteps]))
 \* Raman-on relational clauses (thorough tier): the solver settings under which the shipped Raman fibre configurations
 \* are exercised.  `exact`: the method reproduces plain attenuation exactly in the low-power limit (the numerical
 \* Euler scheme has a discretisation error proportional to its step, so LowPower is not judged for it).
